@@ -601,6 +601,9 @@ func (s *Solver) lowerAxioms(fn, t string) {
 	s.send(fmt.Sprintf("(assert (= (clean %s) (clean %s)))", ap, t))
 	s.send(fmt.Sprintf("(assert (>= (litid %s) 0))", ap))
 	s.send(fmt.Sprintf("(assert (=> (= (slen %s) #x0000000000000000) (= %s str_empty)))", ap, ap))
+	// the two case mappings agree: lower(upper(t)) = lower(t), upper(lower(t)) = upper(t)
+	s.send(fmt.Sprintf("(assert (= (lower (upper %s)) (lower %s)))", t, t))
+	s.send(fmt.Sprintf("(assert (= (upper (lower %s)) (upper %s)))", t, t))
 }
 
 func init() {
